@@ -19,6 +19,7 @@ import ClarabelProofs.Lemmas.CscReduce
 import ClarabelProofs.Lemmas.VecKernels
 import ClarabelProofs.Lemmas.CscMisc
 import ClarabelProofs.Lemmas.CscHvcat
+import ClarabelProofs.Lemmas.VecMeanBounds
 import ClarabelModel.Cones.Nonsym
 
 namespace Clarabel.C16
@@ -2207,5 +2208,48 @@ example : ¬ ∃ col, col < exShift.n ∧ exShift.colptr.getD col 0 ≤ 0 ∧ 0 
 /-- `logsafe_spec`: `logsafe 1 = 0` over `ℝ` and the `-∞` token at `Float` -/
 example : Nonsym.logsafe (1 : ℝ) = 0 ∧ Nonsym.logsafe (0.0 : Float) == -(1.0 / 0.0) :=
   ⟨logsafe_spec.2.2.1, by decide⟩
+
+/-! ## Round 5 — `min ≤ mean ≤ max`, and which `spalloc` results are canonical -/
+
+section meanbounds
+variable [Field α] [LinearOrder α] [IsStrictOrderedRing α] [FloatLike α] [LawfulFloatLike α]
+
+/-- [F] `minimum ≤ mean ≤ maximum` for a non-empty vector (both exist: `vec_min_max_spec`); if
+minimum and maximum coincide the mean is that value. -/
+theorem vec_min_le_mean_le_max (x : Array α) (hne : x.size ≠ 0) :
+    (∃ lo hi, Vec.minimum? x = some lo ∧ Vec.maximum? x = some hi ∧
+      lo ≤ Vec.mean x ∧ Vec.mean x ≤ hi ∧ lo ≤ hi) ∧
+    (∀ v, Vec.minimum? x = some v → Vec.maximum? x = some v → Vec.mean x = v) :=
+  ⟨Vec.min_le_mean_le_max x hne, fun v h1 h2 => Vec.mean_eq_of_min_eq_max x hne v h1 h2⟩
+
+end meanbounds
+
+/-- non-vacuity of `vec_min_le_mean_le_max` at `ℝ` -/
+example : ∃ lo hi, Vec.minimum? #[(1 : ℝ), 2, 6] = some lo ∧ Vec.maximum? #[(1 : ℝ), 2, 6] = some hi ∧
+    lo ≤ Vec.mean #[(1 : ℝ), 2, 6] ∧ Vec.mean #[(1 : ℝ), 2, 6] ≤ hi :=
+  let ⟨lo, hi, h1, h2, h3, h4, _⟩ := (vec_min_le_mean_le_max #[(1 : ℝ), 2, 6] (by simp)).1
+  ⟨lo, hi, h1, h2, h3, h4⟩
+
+/-- [S] **which `spalloc(m, n, nnz)` are canonical encodings.**  `spalloc` stores `nnz` entries
+with row index `0`, all of them in the last column (`colptr = [0,…,0,nnz]`; with `n = 0` in no
+column at all).  So it is `Canonical` iff nothing is stored, or `m > 0` (row `0` exists) and no
+column holds two entries: `n = 0` or `nnz = 1`; and it is a canonical encoding in the sense of
+`check_format` (`Canonical0`, `colptr[0] = 0` in addition) iff `nnz = 0`, or `m, n > 0` and
+`nnz = 1`.  In particular `spalloc(m, n, nnz)` with `nnz ≥ 2` is a workspace to be filled, never
+a valid matrix (its last column repeats row `0`). -/
+theorem spalloc_canonical_iff [OfNat α 0] (m n nnz : Nat) :
+    (Canonical (spalloc m n nnz : Csc α) ↔ nnz = 0 ∨ (0 < m ∧ (n = 0 ∨ nnz = 1))) ∧
+    (Canonical0 (spalloc m n nnz : Csc α) ↔ nnz = 0 ∨ (0 < m ∧ 0 < n ∧ nnz = 1)) ∧
+    ((spalloc m n nnz : Csc α).checkFormat = .ok () ↔ nnz = 0 ∨ (0 < m ∧ 0 < n ∧ nnz = 1)) :=
+  ⟨Csc.spalloc_canonical_iff m n nnz, Csc.spalloc_canonical0_iff m n nnz,
+   (check_format_iff _).trans (Csc.spalloc_canonical0_iff m n nnz)⟩
+
+/-- both directions on concrete shapes -/
+example : Canonical0 (spalloc 2 3 1 : Csc Int) ∧ ¬ Canonical (spalloc 2 3 2 : Csc Int) ∧
+    Canonical (spalloc 2 0 5 : Csc Int) ∧ ¬ Canonical0 (spalloc 2 0 5 : Csc Int) :=
+  ⟨(spalloc_canonical_iff 2 3 1).2.1.mpr (by decide), fun h => by
+      have := (spalloc_canonical_iff (α := Int) 2 3 2).1.mp h; omega,
+   (spalloc_canonical_iff 2 0 5).1.mpr (by decide), fun h => by
+      have := (spalloc_canonical_iff (α := Int) 2 0 5).2.1.mp h; omega⟩
 
 end Clarabel.C16
